@@ -270,9 +270,9 @@ func local[E ~int | ~int64](e E) E { return e + e }
 `
 
 type wfConstruct struct {
-	Name   string
-	MinGo  int    // minor version needed (0 = any)
-	Body   string // uses X as an int lvalue, c, a, r, s, str, m, ch, ch2, v
+	Name    string
+	MinGo   int    // minor version needed (0 = any)
+	Body    string // uses X as an int lvalue, c, a, r, s, str, m, ch, ch2, v
 	NeedLib bool
 }
 
@@ -474,6 +474,17 @@ var wfConstructs = []wfConstruct{
 		if c(4) { sink(&u) }
 		r += u
 	}`},
+	{Name: "trivial-phis", Body: `inv := a
+	if c(0) { inv = a } else { inv = a }
+	r += inv
+	w := X
+	for c(1) {
+		w = w
+		r += w
+		if c(2) { continue }
+		w = w
+	}
+	r += w`},
 	{Name: "goto-loop", Body: `i := 0
 	if c(0) { goto second }
 first:
